@@ -95,6 +95,9 @@ func EmbedX(l, x *core.Lane, kind int, parts [][]byte, surround bool) *Embedded 
 		if x != nil && x.Chance(1, 4) {
 			o.CTBO = 1 + x.Intn(15)
 		}
+		if x != nil && x.Chance(1, 4) {
+			o.TopExtra = true // free / unknown boxes between the top-level boxes, also in front of moov
+		}
 		c := DrawCR3(l, o)
 		e.Bytes = c.Bytes
 		e.Map = c.Map
